@@ -37,8 +37,14 @@ def op_desc(b, S, op):
         if isinstance(e, dict) and "f" in e and sym.is_repo_adt(e["adt"]):
             nm = sym.short_adt(e["adt"]) + ("::" + e["v"] if e.get("v") else "") + "." + e["f"]
             terms = {("f", x, nm) for x in terms}
-    if not terms:
+    if not terms or "{closure@" in b.locals[pl["l"]]["ty"]:
         ty = b.locals[pl["l"]]["ty"]
+        if "{closure@" in ty and not pl["p"]:
+            cd = closure_desc(b, pl["l"])
+            if cd is not None:
+                return "{|..| %s}" % cd
+        if terms:
+            return fmt_terms(terms)
         return "local:" + re.sub(r"\{closure@[^}]*\}", "{closure}", ty.replace("std::", ""))
     return fmt_terms(terms)
 
@@ -79,6 +85,38 @@ def const_bool_defs(b, l):
     if not t or not f:
         return None
     return t, f
+
+
+_clA = None
+
+
+def closure_desc(b, l):
+    """what a predicate closure stored in local l tests: the description of its bool result (`|sc| sc.name == x` ->
+    `eq(arg2.name, arg1.#0)`), or None when the closure is not a simple predicate"""
+    global _clA
+    cl = None
+    for blk in b.blocks:
+        for s in blk["s"]:
+            if s["k"] == "assign" and not s["p"]["p"] and s["p"]["l"] == l and s["rv"]["r"] == "agg" and s["rv"].get("kind") == "closure":
+                cl = s["rv"].get("cl")
+    prog = mir.prog()
+    if cl is None or cl not in prog.bodies:
+        return None
+    cb = prog.bodies[cl]
+    if not cb.locals or cb.locals[0]["ty"] != "bool":
+        return None
+    if _clA is None:
+        _clA = sym.Analyzer(prog)
+    try:
+        Sc = _clA.summary(cl)
+    except RecursionError:
+        return None
+    if Sc is None:
+        return None
+    dsc, pos = bool_desc(cb, Sc, 0, 2)
+    if dsc in ("flag", "expr"):
+        return None
+    return dsc if pos else "!(" + dsc + ")"
 
 
 def bool_desc(b, S, l, depth=0):
@@ -397,3 +435,27 @@ def equivalent(f1, f2, limit=300000):
         if _eval(f1, env) != _eval(f2, env):
             return False
     return True
+
+
+def implied_values(f, limit=300000):
+    """for every boolean subject of formula f: the set of truth values it takes in the assignments that satisfy f
+    ({True}: f implies it, {False}: f implies its negation, {True, False}: f does not determine it); None if too large"""
+    import itertools
+    subs = {}
+    _subjects(f, subs)
+    keys = sorted(subs)
+    doms = []
+    n = 1
+    for k in keys:
+        dom = sorted(subs[k]) + ["\0other"] if k[0] == "e" else [True, False]
+        doms.append(dom)
+        n *= len(dom)
+        if n > limit:
+            return None
+    out = {k: set() for k in keys if k[0] == "b"}
+    for combo in itertools.product(*doms):
+        env = dict(zip(keys, combo))
+        if _eval(f, env):
+            for k in out:
+                out[k].add(env[k])
+    return out
